@@ -185,7 +185,7 @@ let rec show_val = function
 let show_comp (e : senv) : string =
   let imports = String.concat "," (List.map (fun (n, k) -> Printf.sprintf "%s:%d" (show_str n) (int_of_n k)) e.se_imports) in
   let inst (i : sinst) =
-    let args = List.filter_map (fun (n, b) -> match b with BArg v -> Some (show_str n ^ "=" ^ show_val v) | _ -> None) i.si_bindings in
+    let args = List.filter_map (fun (n, b) -> match binding_value n b with Some v -> Some (show_str n ^ "=" ^ show_val v) | None -> None) i.si_bindings in
     let impl = List.filter_map (fun (n, b) -> match b with BImplicit -> Some (show_str n) | _ -> None) i.si_bindings in
     Printf.sprintf "%d(%s;%s)" (int_of_nat i.si_pkg) (String.concat "," args) (String.concat "," impl) in
   let exports = String.concat "," (List.map (fun (n, v) -> show_str n ^ "=" ^ show_val v) e.se_exports) in
